@@ -6,7 +6,8 @@ import struct
 from ..index import AnalysisError, FUNC, ClassInfo, unparse, parents, stmt_of
 from ..match import (match, find, same, walk_no_nested, dotted, attr_chain,
                      match_stmt, find_stmt, clone)
-from ..evalx import Evaluator, Unknown, Raised, EnumVal, Flags, Obj, Opaque
+from ..evalx import (Evaluator, Unknown, Raised, EnumVal, Flags, Obj, Opaque,
+                     Budget)
 from ..cfg import CFG, _walk_expr
 from ..dataflow import ReachingDefs, inline_locals
 
@@ -549,3 +550,82 @@ def reach_flagged(cfg, func, start, edge_ok):
                 continue
             work.append((m, tuple(sorted(state.items()))))
     return out
+
+
+# ------------------------------------------------- hidden module-level state
+_MOD_CTL = """
+cache = {}
+names = ["a", "b"]
+def remember(k, v):
+    cache[k] = v
+def look(k):
+    return names.index(k)
+"""
+_MUT_CTORS = {"dict", "list", "set", "defaultdict", "OrderedDict", "deque",
+              "WeakKeyDictionary", "WeakValueDictionary", "Counter",
+              "bytearray"}
+
+
+def module_mutables(tree):
+    """(name, definition, mutation) for module-level containers that
+    functions of the module change in place or re-bind"""
+    defs = {}
+    for st in tree.body:
+        if isinstance(st, ast.Assign) and len(st.targets) == 1 and isinstance(
+                st.targets[0], ast.Name):
+            v = st.value
+            if isinstance(v, (ast.Dict, ast.List, ast.Set, ast.ListComp,
+                              ast.DictComp, ast.SetComp)) or (
+                    isinstance(v, ast.Call) and (dotted(v.func) or "").split(
+                        ".")[-1] in _MUT_CTORS):
+                defs[st.targets[0].id] = st
+    out = []
+    if not defs:
+        return out
+    for f in [x for x in ast.walk(tree) if isinstance(x, FUNC)]:
+        local = {a.arg for a in ast.walk(f.args) if isinstance(a, ast.arg)}
+        for x in ast.walk(f):
+            if isinstance(x, ast.Name) and isinstance(x.ctx, ast.Store):
+                local.add(x.id)
+        glob = {n for x in ast.walk(f) if isinstance(x, ast.Global)
+                for n in x.names}
+        for x in ast.walk(f):
+            nm = None
+            if isinstance(x, ast.Subscript) and isinstance(
+                    x.ctx, (ast.Store, ast.Del)) and isinstance(
+                        x.value, ast.Name):
+                nm = x.value.id
+            elif isinstance(x, ast.Call) and isinstance(
+                    x.func, ast.Attribute) and isinstance(
+                        x.func.value, ast.Name) and x.func.attr in _MUTATORS:
+                nm = x.func.value.id
+            elif isinstance(x, ast.Name) and isinstance(
+                    x.ctx, ast.Store) and x.id in glob:
+                nm = x.id
+            if nm in defs and (nm not in local or nm in glob):
+                out.append((nm, defs[nm], x))
+    return out
+
+
+def module_state_rule(chk, repo, rule, modules, why):
+    """nothing the property's code computes is remembered in a container
+    at module level (a process-wide cache keyed by less than what the
+    result depends on, a buffer shared by all callers): expected count on
+    the real tree is zero, so a positive control runs first"""
+    ctl = module_mutables(ast.parse(_MOD_CTL))
+    if [c[0] for c in ctl] != ["cache"]:
+        raise AnalysisError("module_state_rule: positive control failed")
+    bad = []
+    n = 0
+    for mname in modules:
+        m = repo.modules.get(mname)
+        if m is None:
+            continue
+        n += 1
+        bad += [(mname,) + t for t in module_mutables(m.tree)]
+    chk.ob(rule, "ebpfcat", f"no module-level container of "
+           f"{', '.join(m_.split('.')[-1] for m_ in modules)} is changed by "
+           f"the module's functions", not bad, bad[0][3] if bad else None,
+           (f"`{bad[0][1]}` ({repo.where(bad[0][2])}) is process-wide state "
+            f"and `{unparse(bad[0][3])[:50]}` changes it: {why}") if bad else
+           f"{n} module(s): no hidden process-wide state")
